@@ -65,6 +65,8 @@ fn alter(t: &Token, variant: u8, stream_len: usize) -> Option<Token> {
             // every single-bit flip, then 0 and 255
             if v < 8 { Some(Token::U8(x ^ (1 << v))) } else if v == 8 { Some(Token::U8(0)) } else if v == 9 { Some(Token::U8(255)) } else if v == 10 { Some(Token::U64(*x as u64)) } else { None }
         }
+        Token::U64(_) if v == 100 => Some(Token::U64(u64::MAX)),
+        Token::U64(_) if v == 101 => Some(Token::U64(u64::MAX - 1)),
         Token::U64(x) => {
             let c = ints(*x);
             if v < c.len() { Some(Token::U64(c[v])) } else if v == c.len() { Some(Token::U32(*x as u32)) } else if v == c.len() + 1 { Some(Token::Unit) } else { None }
@@ -153,9 +155,14 @@ pub fn single_edits(tokens: &[Token], all_swaps: bool) -> Vec<Edit> {
             }
         }
         let mut k = 0u8;
-        while alter(&tokens[i], k, n).is_some() {
+        while k < 100 && alter(&tokens[i], k, n).is_some() {
             v.push(Edit::Alter(i, k));
             k += 1;
+        }
+        // generations (never lengths) also get the extreme values: a generation of u64::MAX is a valid state
+        if i > 0 && matches!(tokens[i - 1], Token::Field("generation")) && matches!(tokens[i], Token::U64(_)) {
+            v.push(Edit::Alter(i, 100));
+            v.push(Edit::Alter(i, 101));
         }
     }
     v
@@ -280,6 +287,19 @@ pub fn json_inputs(text: &str) -> Vec<String> {
     let mut trees = Vec::new();
     tree_edits(&root, &mut trees, &root, &mut Vec::new());
     v.extend(trees.iter().map(|t| serde_json::to_string(t).unwrap()));
+    // extreme generations (valid states): textual replacement of each "generation":<n>
+    {
+        let key = "\"generation\":";
+        let mut from = 0;
+        while let Some(p) = text[from..].find(key) {
+            let at = from + p + key.len();
+            let end = at + text[at..].find(|c: char| !c.is_ascii_digit()).unwrap_or(0);
+            let mut s = text.to_string();
+            s.replace_range(at..end, "18446744073709551615");
+            v.push(s);
+            from = end;
+        }
+    }
     // duplicate keys cannot be expressed as a Value: do it textually for every "index"/"generation"/"length"/"free"
     for key in ["\"index\":", "\"generation\":", "\"length\":", "\"free\":"] {
         let mut from = 0;
@@ -320,6 +340,7 @@ fn cont_alphabet() -> Vec<Op> {
         Shrink,
         RtJson,
         RemoveStale,
+        Insert { mask: 1, rev: false },
     ]
 }
 
